@@ -138,6 +138,35 @@ class Probe(Stream):
         return consume()
 
 
+class FnProbe:
+    """the library's own ``sink`` node around a plain function (a lambda) that hands back the awaitable of an asynchronous
+    writer.  mode "sinkfn": every call returns a Future; "sinkfn_first_none": the first call returns nothing (a batching writer
+    that has nothing to flush yet), later calls return a Future."""
+
+    def __init__(self, upstream, log, mode="sinkfn", pid=1):
+        self.log, self.mode, self.pid, self.n = log, mode, pid, 0
+        self.node = upstream.sink(lambda x: self.fn(x))
+
+    def fn(self, x):
+        log = self.log
+        log.nd += 1
+        d = log.nd
+        self.n += 1
+        extra = {"rawx": x if not isinstance(x, list) else list(x)} if isinstance(x, (int, tuple, list)) or x is None else {}
+        # (the function does not see the metadata: it is reported as the element's own, which is what a sink must have been given)
+        log.add("deliver", probe=self.pid, d=d, x=flat(x), md=flat(x), shape="batch" if isinstance(x, (tuple, list)) else "one", **extra)
+        if self.mode == "sinkfn_first_none" and self.n == 1:
+            log.add("cons_done", d=d, probe=self.pid, sync=True)
+            return None
+        fut = Future()
+        log.pending[d] = (fut, self.pid)
+        return fut
+
+
+def make_probe(upstream, log, mode="sync", pid=1):
+    return FnProbe(upstream, log, mode, pid) if mode.startswith("sinkfn") else Probe(upstream, log, mode=mode, pid=pid)
+
+
 def check_kept(log):
     """log a `mutated` event for every delivered list that no longer has the content it was delivered with"""
     for d, obj, snap in getattr(log, "kept", []):
